@@ -9,9 +9,9 @@ spec: FMachine evaluated by TLC through Trace_Transpile: for every generated rou
 pools: `core` = constructs the Python back end is expected to translate; each other pool adds one construct."""
 from .. import lib_fm_transpile as T
 
-CORE = ('intfn', 'ipow', 'while', 'boundmod')
-POOLS = ('core', 'lb', 'step', 'lvafter', 'idiv', 'mod', 'sign', 'conv', 'intcast', 'select', 'exitcycle', 'section')
-QUICK = {'core': 24, '*': 4}
+CORE = ('intfn', 'ipow', 'while', 'boundmod', 'step', 'mod', 'intcast', 'exitcycle', 'rpow', 'varstep')
+POOLS = ('core', 'lb', 'lvafter', 'idiv', 'sign', 'conv', 'select', 'section')
+QUICK = {'core': 27, '*': 4}
 THOROUGH = {'core': 240, '*': 14}
 
 ASSUMPTIONS = [
